@@ -17,6 +17,8 @@ type Case struct {
 	Body   *Body    `json:"body,omitempty"`   // behaviour of the callee
 	Method string   `json:"method,omitempty"` // meth: name of the fixed host method; receiver form in Recv
 	Recv   string   `json:"recv,omitempty"`   // meth: ptr | val | iface | mvalue (method value) | embedded | sptr (`&hp.Counter{…}` made by the script) | sptrmv (method value of it)
+	Seq    []bool   `json:"seq,omitempty"`    // ctx condloop: the call is executed once per element in ONE frame (a loop); the element is its first (bool) argument
+	CondOp string   `json:"condop,omitempty"` // ctx condloop: and | or | not | if | for | andassign | orassign | rhsand — how the bool result is consumed
 	Rebind bool     `json:"rebind,omitempty"` // meth: the receiver variable is assigned another value after the method value / defer statement was evaluated, before the call runs
 	Args   []*Val   `json:"args,omitempty"`   // one per argument written at the call (variadic elements are separate unless Spread)
 	Forms  []string `json:"forms,omitempty"`  // per argument: var | lit | const (untyped constant / nil)
@@ -393,6 +395,11 @@ func (c *Counter) AddAll(ns ...int) int {
 	}
 	return c.N
 }
+func (c *Counter) Is(b bool, xs ...int) bool {
+	defer c.fin()
+	c.rec("Is", b, xs)
+	return b != (len(xs) == 1)
+}
 func (c *Counter) Fmt(f string, xs ...int8) string {
 	defer c.fin()
 	c.rec("Fmt", f, xs)
@@ -440,7 +447,7 @@ type Holder struct {
 var counterPtrT = reflect.TypeOf((*Counter)(nil))
 
 // methodNames in a fixed order.
-var methodNames = []string{"Add", "Get", "Scale", "AddAll", "Fmt", "Mix", "Apply", "Show", "Any", "Pair", "Err", "String"}
+var methodNames = []string{"Add", "Get", "Scale", "AddAll", "Fmt", "Mix", "Apply", "Show", "Any", "Pair", "Err", "String", "Is"}
 
 func (g *genCfg) genMethodCase(id string) *Case {
 	r := g.rng
